@@ -6,12 +6,15 @@ import (
 	"bytes"
 	"encoding/binary"
 	"encoding/json"
+	"flag"
 	"fmt"
 	"image"
 	"image/color"
 	"image/jpeg"
 	"image/png"
 	"io"
+	"os"
+	"path/filepath"
 	"runtime"
 	"strconv"
 	"strings"
@@ -25,6 +28,7 @@ import (
 	"github.com/EliCDavis/polyform/generator/graph"
 	"github.com/EliCDavis/polyform/formats/gltf"
 	"github.com/EliCDavis/polyform/generator/parameter"
+	"github.com/EliCDavis/polyform/generator/schema"
 	"github.com/EliCDavis/polyform/modeling"
 	"github.com/EliCDavis/polyform/nodes"
 	"github.com/EliCDavis/polyform/refutil"
@@ -35,6 +39,7 @@ import (
 type nodeD struct {
 	Kind string `json:"kind"`         // "show" (one parameter input) | "join" (2-3 string inputs) | "fshow": a loader that FAILS
 	//                                   (returns "", error) for int values divisible by 3, followed by a node that falls back to the raw parameter
+	//                                   | "pshow": a show node whose processor PANICS (integer division by zero) for int values divisible by 4
 	P    int    `json:"p,omitempty"`  // show: parameter index
 	In   []int  `json:"in,omitempty"` // join: indices of earlier nodes
 }
@@ -51,7 +56,7 @@ type prodD struct {
 }
 type shapeD struct {
 	Name   string   `json:"name"`
-	PTypes []string `json:"ptypes"` // "int" | "float" | "string" | "bool" | "file" (parameter.File) | "ints" (Value[[]int]) | "image" (parameter.Image)
+	PTypes []string `json:"ptypes"` // "probe" (parameter.Int reporting its ApplyMessage/ToMessage to the critical-section probe) | "int" | "float" | "string" | "bool" | "file" (parameter.File) | "ints" (Value[[]int]) | "image" (parameter.Image)
 	Nodes  []nodeD  `json:"nodes"`
 	Prods  []prodD  `json:"prods"`
 }
@@ -59,7 +64,7 @@ type shapeD struct {
 // parameters listed by node n's text, in order
 func (s *shapeD) lists(n int) []int {
 	d := s.Nodes[n]
-	if d.Kind == "show" || d.Kind == "fshow" {
+	if d.Kind == "show" || d.Kind == "fshow" || d.Kind == "pshow" {
 		return []int{d.P}
 	}
 	var out []int
@@ -68,6 +73,35 @@ func (s *shapeD) lists(n int) []int {
 	}
 	return out
 }
+// panicking parameters below node n
+func (s *shapeD) panicParams(n int, acc map[int]bool) {
+	d := s.Nodes[n]
+	if d.Kind == "pshow" {
+		acc[d.P] = true
+	}
+	for _, c := range d.In {
+		s.panicParams(c, acc)
+	}
+}
+
+// prodBad: the (parameter, value) pairs for which evaluating producer k panics
+func (s *shapeD) prodBad(k int) [][2]int {
+	if s.Prods[k].Kind != "" {
+		return nil
+	}
+	acc := map[int]bool{}
+	s.panicParams(s.Prods[k].Node, acc)
+	var out [][2]int
+	for p := 0; p < len(s.PTypes); p++ {
+		if acc[p] {
+			for v := 0; v < 10; v += 4 {
+				out = append(out, [2]int{p, v})
+			}
+		}
+	}
+	return out
+}
+
 func (s *shapeD) prodLists(k int) []int {
 	if s.Prods[k].Kind == "gltf" {
 		var out []int
@@ -83,7 +117,7 @@ func (s *shapeD) prodLists(k int) []int {
 }
 func (s *shapeD) depth(n int) int {
 	d := s.Nodes[n]
-	if d.Kind == "show" || d.Kind == "fshow" {
+	if d.Kind == "show" || d.Kind == "fshow" || d.Kind == "pshow" {
 		return 1
 	}
 	m := 0
@@ -124,7 +158,77 @@ type cfg struct {
 	j        *jit
 	inflight atomic.Int32  // clients currently inside this node's Process
 	overlaps *atomic.Int64 // graph-wide: how often a client entered a Process another client was already inside
+	pr       *probe
 }
+
+// probe: graph-wide view of who is inside the Instance's critical section: node evaluations (Process calls, nested
+// in one goroutine) and parameter operations (ApplyMessage / ToMessage of the probe parameters).  Under a correct
+// lock a parameter operation never overlaps an evaluation or another parameter operation.
+type probe struct {
+	evals    atomic.Int32
+	paramOps atomic.Int32
+	overlaps *atomic.Int64
+}
+
+func (p *probe) evalEnter() {
+	if p == nil {
+		return
+	}
+	p.evals.Add(1)
+	if p.paramOps.Load() > 0 {
+		p.overlaps.Add(1)
+	}
+}
+func (p *probe) evalLeave() {
+	if p != nil {
+		p.evals.Add(-1)
+	}
+}
+func (p *probe) paramEnter() {
+	if p.paramOps.Add(1) > 1 || p.evals.Load() > 0 {
+		p.overlaps.Add(1)
+	}
+}
+func (p *probe) paramLeave() { p.paramOps.Add(-1) }
+
+// ProbeInt: the repository's parameter.Int whose ApplyMessage / ToMessage (called by UpdateParameter /
+// ParameterData inside the critical section) report to the probe
+type ProbeInt struct {
+	*parameter.Int
+	pr *probe
+	j  *jit
+}
+
+func (p *ProbeInt) ApplyMessage(msg []byte) (bool, error) {
+	p.pr.paramEnter()
+	defer p.pr.paramLeave()
+	p.j.pause()
+	return p.Int.ApplyMessage(msg)
+}
+func (p *ProbeInt) ToMessage() []byte {
+	p.pr.paramEnter()
+	defer p.pr.paramLeave()
+	p.j.pause()
+	return p.Int.ToMessage()
+}
+func (p *ProbeInt) Node() nodes.Node { return p }
+func (p *ProbeInt) Out() ProbeOut    { return ProbeOut{P: p} }
+func (p *ProbeInt) Outputs() []nodes.Output {
+	return []nodes.Output{{Type: "int", NodeOutput: ProbeOut{P: p}}}
+}
+func (p *ProbeInt) Inputs() []nodes.Input { return []nodes.Input{} }
+func (p *ProbeInt) Schema() schema.Parameter {
+	if p.Int == nil { // the type factory instantiates an empty one for the type schema
+		return schema.ParameterBase{Name: "probe", Type: "int"}
+	}
+	return p.Int.Schema()
+}
+
+type ProbeOut struct{ P *ProbeInt }
+
+func (o ProbeOut) Value() int       { return o.P.Int.Value() }
+func (o ProbeOut) Node() nodes.Node { return o.P }
+func (o ProbeOut) Port() string     { return "Out" }
 
 // enter/leave bracket every Process: evaluation happens inside the Instance's critical section, so a second
 // client inside the same node is a direct observation that mutual exclusion is broken
@@ -132,8 +236,12 @@ func (c *cfg) enter() {
 	if c.inflight.Add(1) > 1 && c.overlaps != nil {
 		c.overlaps.Add(1)
 	}
+	c.pr.evalEnter()
 }
-func (c *cfg) leave() { c.inflight.Add(-1) }
+func (c *cfg) leave() {
+	c.pr.evalLeave()
+	c.inflight.Add(-1)
+}
 
 // ---- slice-valued payloads: code v <-> a payload whose LENGTH also depends on v, so that an in-place overwrite
 // by a same-size payload shows another valid code and by a shorter one an invalid mixture
@@ -358,6 +466,21 @@ func (d ShowBoolData) Process() (string, error) {
 	return fmt.Sprintf("p%d=%d;", d.c.idx, v), nil
 }
 
+// PanicShowData: divides by (v mod 4): panics (runtime error: integer divide by zero) for values divisible by 4
+type PanicShowData struct {
+	c  *cfg
+	In nodes.NodeOutput[int]
+}
+
+func (d PanicShowData) Process() (string, error) {
+	d.c.enter()
+	defer d.c.leave()
+	d.c.j.pause()
+	v := d.In.Value()
+	scale := 12 / (v % 4)
+	return fmt.Sprintf("p%d=%d;", d.c.idx, v*scale/scale), nil
+}
+
 // FailShowData: a loader-like node: fails (zero value + error) for values divisible by 3
 type FailShowData struct {
 	c  *cfg
@@ -533,14 +656,16 @@ type liveGraph struct {
 	inst  *graph.Instance
 	par   []liveParam
 	prodF [][]int // per producer: parameter indices listed by its text
+	prodB [][][2]int // per producer: (parameter, value) pairs for which its evaluation panics
 	over  atomic.Int64
+	pr    probe
 	// responses of earlier windows that are backed by slices (binary / ints artifacts, file ParameterData)
 	retained []*rec
 }
 
 func encodeVal(typ string, v int, enc string) []byte {
 	switch typ {
-	case "int", "float":
+	case "int", "float", "probe":
 		return []byte(strconv.Itoa(v))
 	case "string":
 		return []byte(`"` + strconv.Itoa(v) + `"`)
@@ -563,7 +688,7 @@ func encodeVal(typ string, v int, enc string) []byte {
 // decodeVal: JSON returned by ParameterData -> code
 func decodeVal(typ string, msg []byte) (int, bool) {
 	switch typ {
-	case "int":
+	case "int", "probe":
 		var x int
 		if json.Unmarshal(msg, &x) != nil {
 			return 0, false
@@ -605,8 +730,17 @@ func decodeVal(typ string, msg []byte) (int, bool) {
 	return 0, false
 }
 
-func build(s *shapeD, init []int, j *jit) *liveGraph {
+func build(s *shapeD, init []int, j *jit) *liveGraph { return buildCLI(s, init, j, nil, "") }
+
+// buildCLI: the parameters in cli (File / Image) get their value from a command line flag naming a file in dir
+// (flag parsed, nothing read yet: Value() loads the file lazily on its FIRST read)
+func buildCLI(s *shapeD, init []int, j *jit, cli []int, dir string) *liveGraph {
+	isCLI := map[int]bool{}
+	for _, p := range cli {
+		isCLI[p] = true
+	}
 	g := &liveGraph{shape: s, inst: graph.New(&refutil.TypeFactory{})}
+	g.pr.overlaps = &g.over
 	ints := map[int]nodes.NodeOutput[int]{}
 	floats := map[int]nodes.NodeOutput[float64]{}
 	strs := map[int]nodes.NodeOutput[string]{}
@@ -617,6 +751,10 @@ func build(s *shapeD, init []int, j *jit) *liveGraph {
 	for p, t := range s.PTypes {
 		name := fmt.Sprintf("p%d", p)
 		switch t {
+		case "probe":
+			n := &ProbeInt{Int: &parameter.Int{Name: name, DefaultValue: init[p]}, pr: &g.pr, j: j}
+			ints[p] = n.Out()
+			g.par = append(g.par, liveParam{typ: t, node: n})
 		case "int":
 			n := &parameter.Int{Name: name, DefaultValue: init[p]}
 			ints[p] = n.Out()
@@ -635,6 +773,9 @@ func build(s *shapeD, init []int, j *jit) *liveGraph {
 			g.par = append(g.par, liveParam{typ: t, node: n})
 		case "file":
 			n := &parameter.File{Name: name, DefaultValue: filePayload(init[p])}
+			if isCLI[p] {
+				n.CLI = &parameter.CliConfig[string]{FlagName: name, Usage: "harness"}
+			}
 			files[p] = n.Out()
 			g.par = append(g.par, liveParam{typ: t, node: n})
 		case "ints":
@@ -643,6 +784,9 @@ func build(s *shapeD, init []int, j *jit) *liveGraph {
 			g.par = append(g.par, liveParam{typ: t, node: n})
 		case "image":
 			n := &parameter.Image{Name: name, DefaultValue: imageOf(init[p])}
+			if isCLI[p] {
+				n.CLI = &parameter.CliConfig[string]{FlagName: name, Usage: "harness"}
+			}
 			images[p] = n.Out()
 			g.par = append(g.par, liveParam{typ: t, node: n})
 		default:
@@ -651,11 +795,11 @@ func build(s *shapeD, init []int, j *jit) *liveGraph {
 	}
 	outs := make([]nodes.NodeOutput[string], len(s.Nodes))
 	for k, d := range s.Nodes {
-		c := &cfg{idx: d.P, j: j, overlaps: &g.over}
+		c := &cfg{idx: d.P, j: j, overlaps: &g.over, pr: &g.pr}
 		switch d.Kind {
 		case "show":
 			switch s.PTypes[d.P] {
-			case "int":
+			case "int", "probe":
 				outs[k] = (&nodes.Struct[string, ShowIntData]{Data: ShowIntData{c: c, In: ints[d.P]}}).Out()
 			case "float":
 				outs[k] = (&nodes.Struct[string, ShowFloatData]{Data: ShowFloatData{c: c, In: floats[d.P]}}).Out()
@@ -670,12 +814,17 @@ func build(s *shapeD, init []int, j *jit) *liveGraph {
 			case "image":
 				outs[k] = (&nodes.Struct[string, ShowImageData]{Data: ShowImageData{c: c, In: images[d.P]}}).Out()
 			}
+		case "pshow":
+			if s.PTypes[d.P] != "int" {
+				panic("pshow needs an int parameter")
+			}
+			outs[k] = (&nodes.Struct[string, PanicShowData]{Data: PanicShowData{c: c, In: ints[d.P]}}).Out()
 		case "fshow":
 			if s.PTypes[d.P] != "int" {
 				panic("fshow needs an int parameter")
 			}
 			f := (&nodes.Struct[string, FailShowData]{Data: FailShowData{c: c, In: ints[d.P]}}).Out()
-			c2 := &cfg{idx: d.P, j: j, overlaps: &g.over}
+			c2 := &cfg{idx: d.P, j: j, overlaps: &g.over, pr: &g.pr}
 			outs[k] = (&nodes.Struct[string, MarkData]{Data: MarkData{c: c2, In: f, Raw: ints[d.P]}}).Out()
 		case "join":
 			switch len(d.In) {
@@ -699,12 +848,12 @@ func build(s *shapeD, init []int, j *jit) *liveGraph {
 		case "img":
 			g.inst.AddProducer(p.Name, basics.NewImageNode(images[p.P]))
 		case "ints":
-			c := &cfg{idx: p.P, j: j, overlaps: &g.over}
+			c := &cfg{idx: p.P, j: j, overlaps: &g.over, pr: &g.pr}
 			g.inst.AddProducer(p.Name, (&nodes.Struct[artifact.Artifact, IntsArtifactData]{Data: IntsArtifactData{c: c, In: intss[p.P]}}).Out())
 		case "gltf":
 			// the repository's own scene producer: Models x gltf.ModelNode sharing one mesh node and one material node
-			mesh := (&nodes.Struct[modeling.Mesh, TriMeshData]{Data: TriMeshData{c: &cfg{idx: p.P, j: j, overlaps: &g.over}, N: ints[p.P]}}).Out()
-			rough := (&nodes.Struct[float64, SixteenthData]{Data: SixteenthData{c: &cfg{idx: p.PB, j: j, overlaps: &g.over}, In: floats[p.PB]}}).Out()
+			mesh := (&nodes.Struct[modeling.Mesh, TriMeshData]{Data: TriMeshData{c: &cfg{idx: p.P, j: j, overlaps: &g.over, pr: &g.pr}, N: ints[p.P]}}).Out()
+			rough := (&nodes.Struct[float64, SixteenthData]{Data: SixteenthData{c: &cfg{idx: p.PB, j: j, overlaps: &g.over, pr: &g.pr}, In: floats[p.PB]}}).Out()
 			mat := (&gltf.MaterialNode{Data: gltf.MaterialNodeData{RoughnessFactor: rough}}).Out()
 			var models []nodes.NodeOutput[gltf.PolyformModel]
 			for m := 0; m < p.Models; m++ {
@@ -715,6 +864,20 @@ func build(s *shapeD, init []int, j *jit) *liveGraph {
 			panic("producer kind " + p.Kind)
 		}
 		g.prodF = append(g.prodF, s.prodLists(k))
+		g.prodB = append(g.prodB, s.prodBad(k))
+	}
+	if len(cli) > 0 {
+		fs := flag.NewFlagSet("cold", flag.ContinueOnError)
+		g.inst.InitializeParameters(fs)
+		var args []string
+		for _, p := range cli {
+			path := filepath.Join(dir, fmt.Sprintf("p%d.dat", p))
+			os.WriteFile(path, encodeVal(s.PTypes[p], init[p], "png"), 0o644)
+			args = append(args, fmt.Sprintf("-p%d", p), path)
+		}
+		if err := fs.Parse(args); err != nil {
+			panic(err)
+		}
 	}
 	for p := range g.par {
 		g.par[p].id = g.inst.NodeId(g.par[p].node)
@@ -785,7 +948,7 @@ func artifactText(a artifact.Artifact) (string, bool) {
 }
 
 // ---------------------------------------------------------------- shapes
-var ptypeCycle = []string{"int", "file", "float", "image", "ints", "string", "bool"}
+var ptypeCycle = []string{"int", "file", "float", "probe", "image", "ints", "string", "bool"}
 
 func fixedShapes() []*shapeD {
 	return []*shapeD{
@@ -842,8 +1005,19 @@ func fixedShapes() []*shapeD {
 			Prods: []prodD{{Name: "a.txt", Node: 6}, {Name: "b.txt", Node: 7}, {Name: "scene.glb", Kind: "gltf", P: 4, PB: 1, Models: 3},
 				{Name: "pair.glb", Kind: "gltf", P: 0, PB: 1, Models: 2}},
 		},
+		{ // a node that PANICS for some values below a shared join; one producer is not affected
+			Name: "panics", PTypes: []string{"int", "int", "float", "string"},
+			Nodes: []nodeD{
+				{Kind: "pshow", P: 0}, {Kind: "show", P: 1}, {Kind: "show", P: 2}, {Kind: "show", P: 3}, // 0-3
+				{Kind: "join", In: []int{1, 0}}, // 4 (shared; evaluates p1 before the panicking node)
+				{Kind: "join", In: []int{4, 2}}, // 5 -> a.txt [1,0,2]
+				{Kind: "join", In: []int{3, 4}}, // 6 -> b.txt [3,1,0]
+				{Kind: "join", In: []int{1, 2}}, // 7 -> c.txt [1,2]
+			},
+			Prods: []prodD{{Name: "a.txt", Node: 5}, {Name: "b.txt", Node: 6}, {Name: "c.txt", Node: 7}},
+		},
 		{ // image parameters (uploads in several encodings), shown in text artifacts and served by basics.ImageNode
-			Name: "images", PTypes: []string{"image", "int", "image", "string"},
+			Name: "images", PTypes: []string{"image", "probe", "image", "string"},
 			Nodes: []nodeD{
 				{Kind: "show", P: 0}, {Kind: "show", P: 1}, {Kind: "show", P: 2}, {Kind: "show", P: 3}, // 0-3
 				{Kind: "join", In: []int{0, 1}}, // 4 (shared)
@@ -853,7 +1027,7 @@ func fixedShapes() []*shapeD {
 			Prods: []prodD{{Name: "a.txt", Node: 5}, {Name: "b.txt", Node: 6}, {Name: "pic.png", Kind: "img", P: 0}, {Name: "pic2.png", Kind: "img", P: 2}},
 		},
 		{ // slice-valued parameters: an uploaded file feeding a binary artifact and a text artifact, an int slice
-			Name: "slices", PTypes: []string{"file", "int", "ints", "string", "file"},
+			Name: "slices", PTypes: []string{"file", "probe", "ints", "string", "file"},
 			Nodes: []nodeD{
 				{Kind: "show", P: 0}, {Kind: "show", P: 1}, {Kind: "show", P: 2}, {Kind: "show", P: 3}, {Kind: "show", P: 4}, // 0-4
 				{Kind: "join", In: []int{0, 1}},    // 5 (shared)
@@ -883,6 +1057,8 @@ func randomShape(r *hx.Rng, k int) *shapeD {
 		kind := "show"
 		if s.PTypes[p] == "int" && r.Chance(1, 3) {
 			kind = "fshow"
+		} else if s.PTypes[p] == "int" && r.Chance(1, 3) {
+			kind = "pshow"
 		}
 		s.Nodes = append(s.Nodes, nodeD{Kind: kind, P: p})
 		showPool[p] = append(showPool[p], len(s.Nodes)-1)
